@@ -370,6 +370,7 @@ import clieng
 import formeng
 import probeeng
 import deteng
+import multieng
 eng_determinism = deteng.eng_determinism
 eng_copyprobe = probeeng.eng_copyprobe
 eng_valuetable = probeeng.eng_valuetable
@@ -378,33 +379,34 @@ eng_forms = formeng.eng_forms
 eng_cli = clieng.eng_cli
 engprog.props_oracle_core = oracle_core
 eng_prog = engprog.eng_prog
+eng_multi = multieng.eng_multi
 
 WF_NOTE = "the well-formedness of every accepted provider map (wfb) is proved (C05_accepted_maps_well_formed); the correspondence run still evaluates it per accepted case as a redundant check"
 SYNTH_NOTE = "explicit loop bounds of the model (acyc_fuel, solve_fuel) are validated by the correspondence run; the theorems hold for whatever fuel completes the run"
 PROPS = {
-    "C01": {"level_text": "Machine-checked proof in Coq 8.16.1 over an executable model tied to the code by a per-run correspondence; the emission model and the name-freshness theorems are proved; that the emitted package compiles under Go's type checker is established by compiling every accepted program of the corpus (partial).", "theorems": ["C01_one_implementation", "C14_names_distinct", "C14_invented_names_fresh"], "engines": [eng_prog, eng_zerovalue],
+    "C01": {"level_text": "Machine-checked proof in Coq 8.16.1 over an executable model tied to the code by a per-run correspondence; the emission model and the name-freshness theorems are proved; that the emitted package compiles under Go's type checker is established by compiling every accepted program of the corpus (partial).", "theorems": ["C01_one_implementation", "C14_names_distinct", "C14_invented_names_fresh"], "engines": [eng_prog, eng_zerovalue, eng_multi],
             "assumptions": ["partial: Go's full type checker and types.TypeString are not modelled; that the package compiles is established by go build on every accepted program"]},
-    "C02": {"theorems": ["C02_wiring_accepted", "C02_machine_refines_visit", "C06_accepted_is_complete_accepted", "C05_accepted_maps_well_formed"], "engines": [eng_synth, eng_prog], "assumptions": [SYNTH_NOTE, WF_NOTE, "emission of the planned calls and the run-time behaviour are tied by the emitted-lines correspondence and the runtime traces"]},
+    "C02": {"theorems": ["C02_wiring_accepted", "C02_machine_refines_visit", "C06_accepted_is_complete_accepted", "C05_accepted_maps_well_formed"], "engines": [eng_synth, eng_prog, eng_multi], "assumptions": [SYNTH_NOTE, WF_NOTE, "emission of the planned calls and the run-time behaviour are tied by the emitted-lines correspondence and the runtime traces"]},
     "C03": {"theorems": ["C03_failure"], "engines": [eng_prog],
             "assumptions": ["Go semantics of the emitted fragment (short variable declarations, if, calls, closures) is Exec.v's reading of the Go spec, validated by the runtime traces of every generated injector under every single-provider failure"]},
     "C04": {"theorems": ["C04_success"], "engines": [eng_prog],
             "assumptions": ["Go semantics of the emitted fragment is Exec.v's reading of the Go spec, validated by runtime traces"]},
-    "C05": {"theorems": ["C05_never_picks", "C05_closure_spelled_out", "C05_conflict_is_real", "C05_conflict_is_reported", "C05_accepted_maps_well_formed"], "engines": [eng_synth, eng_prog], "assumptions": [SYNTH_NOTE]},
-    "C06": {"theorems": ["C06_missing_accepted", "C06_rejected_names_missing_accepted", "C06_accepted_is_complete_accepted"], "engines": [eng_synth, eng_prog], "assumptions": [SYNTH_NOTE, WF_NOTE]},
+    "C05": {"theorems": ["C05_never_picks", "C05_closure_spelled_out", "C05_conflict_is_real", "C05_conflict_is_reported", "C05_accepted_maps_well_formed"], "engines": [eng_synth, eng_prog, eng_multi], "assumptions": [SYNTH_NOTE]},
+    "C06": {"theorems": ["C06_missing_accepted", "C06_rejected_names_missing_accepted", "C06_accepted_is_complete_accepted"], "engines": [eng_synth, eng_prog, eng_multi], "assumptions": [SYNTH_NOTE, WF_NOTE]},
     "C07": {"theorems": ["C07_cycles_detected", "C07_only_cycle_errors", "C07_terminates", "C07_machine_refines_dfs", "C07_solve_terminates", "C07_checker_graph_covers_planner_graph", "C07_accepted_sets_acyclic_for_planner", "C07_linear_bound", "C07_cycles_detected_total"],
             "engines": [eng_synth, eng_prog],
             "assumptions": [SYNTH_NOTE, "wall-clock behaviour is runtime, sampled on lattices/chains only"]},
-    "C08": {"theorems": ["C08_used_exactly", "C08_unused_reported_exactly", "C08_called_is_used", "C08_used_have_source"], "engines": [eng_synth, eng_prog], "assumptions": [SYNTH_NOTE]},
+    "C08": {"theorems": ["C08_used_exactly", "C08_unused_reported_exactly", "C08_called_is_used", "C08_used_have_source"], "engines": [eng_synth, eng_prog, eng_multi], "assumptions": [SYNTH_NOTE]},
     "C09": {"theorems": ["C09_results", "C09_rejects", "C09_identical_types_rejected"], "engines": [eng_funcoutput, eng_prog],
             "assumptions": ["result kinds are abstracted to what funcOutput can distinguish (identity with error / func())"]},
-    "C10": {"theorems": ["C10_analysis_order_independent", "C10_solve_depends_on_lookups_only", "C10_phase_order_independent", "C05_never_picks"], "engines": [eng_synth, eng_prog], "assumptions": [SYNTH_NOTE]},
+    "C10": {"theorems": ["C10_analysis_order_independent", "C10_solve_depends_on_lookups_only", "C10_phase_order_independent", "C05_never_picks"], "engines": [eng_synth, eng_prog, eng_multi], "assumptions": [SYNTH_NOTE]},
     "C11": {"theorems": ["C11_colocated", "C11_shared_instance", "C02_wiring_accepted"], "engines": [eng_synth, eng_prog, eng_forms], "assumptions": [SYNTH_NOTE, "Go's method-set rule (types.Implements) is go/types' and is not modelled"]},
     "C12": {"theorems": ["C12_check_field_sound", "C12_star_selects_unprevented", "C12_struct_provider_outputs"], "engines": [eng_prog],
             "assumptions": ["field names are ASCII; strconv.Quote and strings.EqualFold are modelled on ASCII identifiers", "FieldsOf name resolution shares checkField; its front end is exercised through the binary only"]},
     "C13": {"theorems": ["C13_whitelist_sound", "C13_whitelist_complete"], "engines": [eng_valuetable, eng_forms, eng_copyprobe, eng_prog],
             "assumptions": ["expression trees are abstracted to the node kinds processValue distinguishes; the mapping from Go syntax to kinds is the table's (hand-written per form)",
                             "evaluation once at package initialisation is Go's semantics of package-level variables, not modelled"]},
-    "C14": {"theorems": ["C14_names_distinct", "C14_invented_names_fresh", "C14_disambiguate_fresh", "C16_collision_order_independent"], "engines": [eng_prog],
+    "C14": {"theorems": ["C14_names_distinct", "C14_invented_names_fresh", "C14_disambiguate_fresh", "C16_collision_order_independent"], "engines": [eng_prog, eng_multi],
             "assumptions": ["identifiers are ASCII in the model; non-ASCII names are outside the generated corpus"]},
     "C15": {"level_text": "Machine-checked proof in Coq 8.16.1 over an executable model tied to the code by a per-run correspondence; the copy is proved to be the identity for any complete table and the table is regenerated from copyAST each run; the capture-avoiding renaming is exercised, not modelled (partial).", "theorems": ["C15_copy_identity", "C15_missing_field_is_lost"], "engines": [eng_copyprobe, eng_copydecls],
             "assumptions": ["partial: the capture-avoiding renaming of rewritePkgRefs is exercised by the declaration corpus (structure + behaviour), not modelled in Coq",
@@ -418,7 +420,7 @@ PROPS = {
             "assumptions": ["partial: that analysis is a function of the current sources (files constrained !wireinject are invisible under -tags=wireinject) is the section hypothesis content_of; it is exactly what the histories test against the binary"]},
     "C19": {"theorems": ["C19_check_iff_gen", "C05_never_picks"], "engines": [eng_cli, eng_prog],
             "assumptions": ["the `show` grouping is checked on the binary's output against the property's wording, its stack machine (gather) is not modelled in Coq"]},
-    "C20": {"level_text": "Machine-checked proof in Coq 8.16.1 over an executable model tied to the code by a per-run correspondence; the modelled rules are total functions and zeroValue/funcOutput tables are regenerated and re-proved each run; crash-freedom of the front end's pattern recognition rests on 94 enumerated spellings through the binary (partial).", "theorems": ["C09_results", "C12_check_field_sound", "C07_terminates"], "engines": [eng_forms, eng_zerovalue, eng_funcoutput],
+    "C20": {"level_text": "Machine-checked proof in Coq 8.16.1 over an executable model tied to the code by a per-run correspondence; the modelled rules are total functions and zeroValue/funcOutput tables are regenerated and re-proved each run; crash-freedom of the front end's pattern recognition rests on 94 enumerated spellings through the binary (partial).", "theorems": ["C09_results", "C12_check_field_sound", "C07_terminates"], "engines": [eng_forms, eng_zerovalue, eng_funcoutput, eng_multi],
             "assumptions": ["partial: the front end's pattern recognition of marker-call arguments is not modelled in Coq; the crash-freedom claim for it rests on the enumerated spellings through the binary",
                             "proved parts: the modelled rules (funcOutput, field selection, cycle check) are total functions; zeroValue is total over the regenerated kind table"]},
 }
